@@ -590,8 +590,20 @@ def run_unit(name, repo_root=None, want_canaries=True, timeout_ms=None):
         seen.setdefault(n, None)
     canaries = [n for n, r in seen.items() if r and r["status"] == "pending-canary"]
     found = {}
-    if (open_names or canaries) and not out["errors"]:
-        found = _concrete_search(udef, repo, dim_names, set(open_names) | set(canaries), out, everything=bool(side_failed))
+    # thorough tier: every clause of the unit - proved ones included - is ALSO re-examined on small concrete instances
+    # (quantifier-free, reductions unrolled, exact norm): a cross-check of the symbolic semantics against the unrolled one;
+    # a concrete counterexample of a clause always wins over a symbolic proof of it
+    thorough = os.environ.get("TVC_TIER") == "thorough"
+    if (open_names or canaries or thorough) and not out["errors"]:
+        need = set(open_names) | set(canaries)
+        if thorough:
+            need |= {n for n, r in seen.items() if r and r.get("kind") in ("post", "assert")}
+        found = _concrete_search(udef, repo, dim_names, need, out, everything=bool(side_failed) or thorough)
+        if thorough:
+            out["crosschecked"] = len(need)
+            for n, rp in found.items():
+                if seen.get(n) and seen[n]["status"] == "proved":
+                    seen[n].update({"status": "refuted", "reason": "concrete counterexample although the symbolic run proved the clause (thorough-tier cross-check)", "replay": rp})
         if side_failed:
             # concrete counterexamples of clauses that only exist in the unrolled (concrete) runs, e.g. the asserts
             # of a loop body that the symbolic run covers by its invariant
